@@ -111,7 +111,8 @@ def model_checking(ck, thorough, dec):
     quickpub = {} if thorough else {"Budgets": "{1000, 2000, 2003}", "Sopts": "{0, 600}"}
     runs = [("SweepFeeMC.cfg", "fee function grid 12 ends x 8 conf targets x 4 starts x 5 estimator answers, all walks, "
                                "repaired model", strict, {}, 900)]
-    runs.append(("SweepFeePubMC.cfg", "publisher grid (2 weights, budgets around the thresholds, 4 input sets, all "
+    runs.append(("SweepFeePubMC.cfg", "publisher grid (requests built by SweepReq from configured maxima 2 / 400 sat/vb; 2 weights, "
+                                      "budgets around the thresholds, 6 input sets incl. two with unconfirmed-parent info, all "
                                       "mempool/publish answers, all block patterns, retries), repaired model",
                  strict, quickpub, 1500))
     if code != strict:
